@@ -79,7 +79,7 @@ check("C13", "model_checking",
       SEQ_NOTE, "bounded-exhaustive enumeration of stacks x expiry configurations on the real Stack against the reference expiry rule", "DESIGN.md 6/C13", "seqbfs")
 
 check("C17", "model_checking",
-      "(a) The real segment chooser is run on EVERY table-size vector of length 0..5 (thorough: 0..7, 39 million vectors) over 12 sizes straddling the power-of-two class boundaries: it must report nothing iff no two adjacent sizes share a size class, otherwise a contiguous in-range segment of at least two tables, and iterating 'suggest, replace by the sum' must terminate in fewer than len steps. (b) 192 single-writer workload shapes (name length x value kind incl. deletion-only x 1/3/20 refs per transaction x fresh or rewritten names x 4 write configurations) of identical-size transactions run on the real Stack for N = 512 (thorough 4096) transactions, checked after EVERY Add: a compaction that ran reduced the table count and did not fail, depth <= 2*log2(n), Stats.EntriesWritten <= n*log2(n)*entries per transaction.",
+      "(a) The real segment chooser is run on EVERY table-size vector of length 0..5 (thorough: 0..7, 39 million vectors) over 12 sizes straddling the power-of-two class boundaries: it must report nothing iff no two adjacent sizes share a size class, otherwise a contiguous in-range segment of at least two tables, and iterating 'suggest, replace by the sum' must terminate in fewer than len steps. (b) 192 single-writer workload shapes (name length x value kind incl. deletion-only x 1/3/20 refs per transaction x fresh or rewritten names x 4 write configurations) of identical-size transactions run on the real Stack for N = 512 (thorough 4096) transactions, checked after EVERY Add (commit, then an explicit AutoCompact): AutoCompact compacts iff two adjacent tables share a size class computed independently from the file lengths in the directory, a compaction that ran reduced the table count and did not fail, depth <= 2*log2(n), Stats.EntriesWritten <= n*log2(n)*entries per transaction.",
       "In-memory directory in atomic mode (single writer). 'For all N' is decided up to the stated N. Three small-N exceedances of the entries bound (n = 3, 4, 12) are genuine but benign consequences of the policy and are listed as known findings; every other n is checked.",
       "exhaustive enumeration of size vectors on the real chooser + exhaustive per-step checking of workload histories on the real Stack", "DESIGN.md 6/C17", "autocompact")
 
